@@ -105,7 +105,7 @@ Qed.
 (* ---- schemas, values, encoding and typed decoding ---- *)
 Inductive leafkind := LInt (ty : N) | LBool | LNull.
 Inductive schema := SLeaf (t : tag) (k : leafkind) | SSeq (t : tag) (fields : list schema).
-Inductive sval := VInt (v : Z) | VBool (b : bool) | VNull | VSeq (vs : list sval).
+Inductive sval := VInt (v : Z) | VBool (b : bool) | VNull | VSeq (vs : list sval) | VOpt (o : option sval).
 
 Definition lop (k : leafkind) (m : mode) : M sval :=
   match k with
@@ -212,7 +212,7 @@ Qed.
 
 Lemma leaf_law k m v c : lenc k v = Some c -> prim_decode (lop k m) c = Ok v.
 Proof.
-  destruct k as [ty| |], v as [x|b| |vs]; cbn [lenc lop]; try discriminate.
+  destruct k as [ty| |], v as [x|b| |vs|o]; cbn [lenc lop]; try discriminate.
   - destruct ((ty <? 10) && in_range (ty_signed ty) (ty_width ty) x) eqn:E; [|discriminate]. intros [= <-].
     apply andb_prop in E as [E1 E2]. rewrite prim_decode_map, (int_roundtrip ty x ltac:(lia) E2). reflexivity.
   - intros [= <-]. rewrite prim_decode_map, bool_roundtrip. reflexivity.
@@ -329,7 +329,7 @@ Qed.
 Lemma RT_seq t fs : Forall RT fs -> RT (SSeq t fs).
 Proof.
   intros HF v e m d Hok He Hw. pose proof (RTL_of_Forall fs HF) as HL.
-  destruct v as [x|b| |vs]; try discriminate. rewrite enc_s_seq in He.
+  destruct v as [x|b| |vs|o]; try discriminate. rewrite enc_s_seq in He.
   destruct (enc_l fs vs) as [es|] eqn:El; [|discriminate]. injection He as <-.
   apply schema_ok_seq in Hok as [[Hleg Heov] Hoks].
   remember (ESeq es) as be eqn:Ebe. cbn [enc_write] in Hw. subst be.
